@@ -186,58 +186,9 @@ def run(prog, rep, tier, repo):
         (rep.ok if ok else rep.viol)('intercept-is-mean', key, 'intercept := mean(data)' if ok else 'intercept is %s' % [show(s.value)[:80] for s in iv], site_of(f.body))
         key = 'yule-walker:fit'
         cv = w.get(fields['coeffs'], [])
-        problems = []
-        if len(cv) != 1:
-            problems.append('coeffs written %d times' % len(cv))
-        else:
-            t = cv[0].value
-            if not (tag(t) == 'call' and t[1] == 'linalg::utils::matmul'):
-                problems.append('coeffs are not a matmul(..) result')
-            else:
-                Rinv, r, n1, n2, fa, fb = t[2]
-                if not (tag(fa) == 'const' and fa[2] is False and tag(fb) == 'const' and fb[2] is False):
-                    problems.append('matmul flags are not (false, false)')
-                if not (tag(Rinv) == 'call' and Rinv[1] == 'linalg::utils::invert_matrix' and tag(Rinv[2][0]) == 'call' and Rinv[2][0][1] == 'linalg::utils::toeplitz'):
-                    problems.append('left factor is not invert_matrix(toeplitz(..))')
-                else:
-                    tz = Rinv[2][0][2][0]
-                    # r = ac[1..], toeplitz arg = ac[..len(r)]
-                    okr = tag(r) == 'index' and _is_range_from(r[2], 1)
-                    ac = r[1] if okr else None
-                    okt = ac is not None and tag(tz) == 'index' and tz[1] == ac and _is_range_to(tz[2], ('len', r))
-                    if not okr:
-                        problems.append('right-hand side is not autocorrelations[1..]')
-                    if not okt:
-                        problems.append('Toeplitz matrix is not built from autocorrelations[..p]')
-                    if n1 != ('len', r) or n2 != ('len', r):
-                        problems.append('row counts passed to matmul are not p')
-                    if ac is not None:
-                        # ac = (0..=p).map(|t| acf(&adjusted, t)).collect()
-                        okac = False
-                        if tag(ac) == 'call' and short(ac[1]) == 'collect' and tag(ac[2][0]) == 'call' and short(ac[2][0][1]) == 'map':
-                            it, cl = ac[2][0][2]
-                            if it == ('rangeincl', ('const', 'usize', 0), ('field', me, fields['p'], 'usize')) and tag(cl) == 'agg':
-                                g = prog.func(cl[2])
-                                rv = g.return_values()
-                                if len(rv) == 1 and tag(rv[0]) == 'call' and rv[0][1] == TF + 'acf':
-                                    adj = cl[3][0] if cl[3] else None
-                                    # adjusted = data.iter().map(|x| x - intercept)
-                                    okadj = False
-                                    if tag(adj) == 'call' and short(adj[1]) == 'collect' and tag(adj[2][0]) == 'call' and short(adj[2][0][1]) == 'map':
-                                        it2, cl2 = adj[2][0][2]
-                                        g2 = prog.func(cl2[2]) if tag(cl2) == 'agg' else None
-                                        rv2 = g2.return_values() if g2 else []
-                                        okadj = _iter_of(it2, data) and len(rv2) == 1 and tag(rv2[0]) == 'bin' and rv2[0][1] == 'Sub' and tag(rv2[0][2]) == 'arg' and \
-                                            tag(rv2[0][3]) == 'field' and rv2[0][3][2] == fields['intercept']
-                                    okac = okadj
-                        if not okac:
-                            problems.append('autocorrelations are not acf(data - intercept, t) for t in 0..=p')
-        # reversal parity: exactly one reverse of self.coeffs in fit, none in predict/step
-        revs = [c for c in f.calls() if c.path and short(c.path) == 'reverse' and c.args and c.args[0] == ('field', me, fields['coeffs'], 'std::vec::Vec<f64>')]
-        if len(revs) != 1:
-            problems.append('coefficients are reversed %d times in fit (history is oldest->newest, so exactly one reversal is needed)' % len(revs))
-        (rep.viol if problems else rep.ok)('yule-walker', key, '; '.join(problems) if problems else
-                                           'coeffs = invert_matrix(toeplitz(r[..p])) . r[1..=p], r[t] = acf(data - mean, t), reversed once', site_of(f.body))
+        verdict, msg = _yule_walker(prog, eng, f, me, data, fields, cv)
+        {'ok': rep.ok, 'viol': rep.viol}.get(verdict, lambda r, k, m, site=None: rep.undecided(r, k, m, site, proof=False))(
+            'yule-walker', key, msg, site_of(f.body))
     rep.floor('yule-walker', 1, 'AR::fit')
     rep.floor('intercept-is-mean', 1, 'AR::fit')
 
@@ -347,6 +298,207 @@ def _count_outside_abs(t, leaf, bad):
                     walk(x, False)
     walk(t, False)
     return n
+
+
+def _slice_nf(t):
+    """(base, lo, hi) of a contiguous sub-slice term (lo/hi are terms, None = start/end); a term that is no slicing form is the
+    whole object (t, None, None)"""
+    k = tag(t)
+    if k == 'index' and tag(t[2]) == 'agg' and t[2][2]:
+        nm = t[2][2]
+        a = t[2][3]
+        b0, lo0, hi0 = _slice_nf(t[1])
+        if lo0 is None and hi0 is None:
+            if 'RangeFrom' in nm and len(a) == 1:
+                return (b0, a[0], None)
+            if 'RangeToInclusive' in nm or 'RangeInclusive' in nm:
+                return None
+            if 'RangeTo' in nm and len(a) == 1:
+                return (b0, None, a[0])
+            if 'RangeFull' in nm:
+                return (b0, None, None)
+            if nm.endswith('Range') and len(a) == 2:
+                return (b0, a[0], a[1])
+        return None
+    if k == 'index' and tag(t[2]) == 'range':
+        b0, lo0, hi0 = _slice_nf(t[1])
+        if lo0 is None and hi0 is None:
+            return (b0, t[2][1], t[2][2])
+        return None
+    if k == 'field' and tag(t[1]) == 'call' and short(t[1][1]) == 'split_at' and len(t[1][2]) == 2 and t[2] in (0, 1):
+        r = _slice_nf(t[1][2][0])
+        if r is None or r[1] is not None or r[2] is not None:
+            return None
+        return (r[0], None, t[1][2][1]) if t[2] == 0 else (r[0], t[1][2][1], None)
+    if k == 'call' and short(t[1]) in ('deref', 'as_slice', 'borrow', 'as_ref') and len(t[2]) == 1:
+        return _slice_nf(t[2][0])
+    if k == 'call' and short(t[1]) in ('split_at', 'split_first', 'split_last', 'get', 'chunks', 'windows'):
+        return None
+    return (t, None, None)
+
+
+def _yule_walker(prog, eng, f, me, data, fields, cv):
+    """coeffs = (odd number of reversals of) matmul(invert_matrix(toeplitz(r[0..p])), r[1..=p], p, p, false, false) with
+    r[t] = acf(series, t) for t = 0..=p, series = data or data - constant (acf centres its argument itself, so it is invariant under
+    shifts).  Returns ('ok'|'viol'|'undecided', message): 'viol' only where a recognised part is positively different."""
+    from ..elem import Env
+    P = ('field', me, fields['p'], 'usize')
+    if len(cv) != 1:
+        return ('undecided', 'coeffs written %d times in fit' % len(cv))
+    t = cv[0].value
+    # ---- reversal parity along the value chain, plus in-place reverse() calls on the stored field or on the chain
+    nrev = 0
+    chain = [t]
+    while tag(t) == 'call' and t[1] != 'linalg::utils::matmul':
+        nm = short(t[1])
+        if nm == 'rev':
+            nrev += 1
+        elif nm not in ('collect', 'into_iter', 'iter', 'cloned', 'copied', 'to_vec', 'clone', 'to_owned', 'from', 'into', 'deref', 'as_slice'):
+            return ('undecided', 'coefficient pipeline step %s not read' % nm)
+        if not t[2]:
+            return ('undecided', 'coefficient pipeline step %s not read' % nm)
+        t = t[2][0]
+        chain.append(t)
+    if not (tag(t) == 'call' and t[1] == 'linalg::utils::matmul'):
+        return ('undecided', 'coeffs are not recognised as a matmul(..) result: %s' % show(t)[:60])
+    cf = ('field', me, fields['coeffs'], 'std::vec::Vec<f64>')
+    for c in f.calls():
+        if c.path and short(c.path) == 'reverse' and c.args and (c.args[0] == cf or c.args[0] in chain):
+            nrev += 1
+    Rinv, r, n1, n2, fa, fb = t[2]
+    for fl in (fa, fb):
+        if tag(fl) != 'const':
+            return ('undecided', 'matmul transpose flags are not literals')
+    if fa[2] is not False or fb[2] is not False:
+        return ('viol', 'matmul flags are not (false, false)')
+    if tag(Rinv) == 'call' and Rinv[1] == 'linalg::utils::toeplitz':
+        return ('viol', 'left factor is toeplitz(..) itself, not its inverse')
+    if not (tag(Rinv) == 'call' and Rinv[1] == 'linalg::utils::invert_matrix'):
+        return ('undecided', 'left factor %s not read' % show(Rinv)[:50])
+    tz = Rinv[2][0]
+    if not (tag(tz) == 'call' and tz[1] == 'linalg::utils::toeplitz'):
+        return ('undecided', 'inverted matrix %s not read' % show(tz)[:50])
+    A = _slice_nf(tz[2][0])
+    B = _slice_nf(r)
+    if A is None or B is None:
+        return ('undecided', 'autocorrelation slices not read')
+    ac = B[0]
+    if A[0] != ac:
+        return ('undecided', 'Toeplitz entries and right-hand side come from different sequences')
+    # ---- ac = acf(series, t) for t in 0..=p
+    if not (tag(ac) == 'call' and short(ac[1]) == 'collect' and tag(ac[2][0]) == 'call' and short(ac[2][0][1]) == 'map'):
+        return ('undecided', 'autocorrelation sequence %s not read' % show(ac)[:50])
+    it, cl = ac[2][0][2]
+    while tag(it) == 'call' and short(it[1]) == 'into_iter':
+        it = it[2][0]
+
+    def lin(x, depth=0):
+        """x as a*p + b over the model order p; None if not of that form"""
+        k = tag(x)
+        if k == 'const' and isinstance(x[2], int) and not isinstance(x[2], bool):
+            return (0, x[2])
+        if x == P:
+            return (1, 0)
+        if k == 'cast':
+            return lin(x[2], depth)
+        if k == 'bin' and x[1] in ('Add', 'Sub'):
+            u, v = lin(x[2], depth), lin(x[3], depth)
+            if u is None or v is None:
+                return None
+            sg = 1 if x[1] == 'Add' else -1
+            return (u[0] + sg * v[0], u[1] + sg * v[1])
+        if k == 'len' and depth < 3:
+            nf = _slice_nf(x[1])
+            if nf is None or nf[0] != ac:
+                return None
+            lo = (0, 0) if nf[1] is None else lin(nf[1], depth + 1)
+            hi = cnt if nf[2] is None else lin(nf[2], depth + 1)
+            if lo is None or hi is None:
+                return None
+            return (hi[0] - lo[0], hi[1] - lo[1])
+        return None
+
+    cnt = None
+    if tag(it) == 'rangeincl':
+        lo_, hi_ = lin(it[1]), lin(it[2])
+        if lo_ is not None and hi_ is not None:
+            start, cnt = lo_, (hi_[0] - lo_[0], hi_[1] - lo_[1] + 1)
+    elif tag(it) == 'range':
+        lo_, hi_ = lin(it[1]), lin(it[2])
+        if lo_ is not None and hi_ is not None:
+            start, cnt = lo_, (hi_[0] - lo_[0], hi_[1] - lo_[1])
+    if cnt is None:
+        return ('undecided', 'lag range %s not read' % show(it)[:50])
+    if start != (0, 0) or cnt != (1, 1):
+        return ('viol', 'autocorrelations are computed for lags %s, not 0..=p' % show(it)[:50])
+    g = prog.func(cl[2]) if tag(cl) == 'agg' and cl[1] == 'closure' else None
+    rv = g.return_values() if g is not None else []
+    if not (len(rv) == 1 and tag(rv[0]) == 'call' and len(rv[0][2]) == 2):
+        return ('undecided', 'lag closure not read')
+    if rv[0][1] != TF + 'acf':
+        if rv[0][1] == TF + 'acovf':
+            return ('viol', 'Yule-Walker system built from autocovariances of mixed normalisation (acovf), not acf')
+        return ('undecided', 'lag closure calls %s' % short(rv[0][1]))
+    ser, lag = rv[0][2]
+    while tag(lag) == 'cast':
+        lag = lag[2]
+    if lag != ('arg', 2, g.names.get(2)):
+        return ('undecided', 'lag argument %s not read' % show(lag)[:40])
+    while tag(ser) in ('deref',) or (tag(ser) == 'call' and short(ser[1]) in ('deref', 'as_slice')):
+        ser = ser[1] if tag(ser) == 'deref' else ser[2][0]
+    if tag(ser) == 'upvar' and ser[1] < len(cl[3]):
+        ser = cl[3][ser[1]]
+    elif tag(ser) == 'upvar':
+        return ('undecided', 'series captured by the lag closure not found')
+    nf = _slice_nf(ser)
+    if nf is None:
+        return ('undecided', 'series %s not read' % show(ser)[:50])
+    if nf[1] is not None or nf[2] is not None:
+        return ('viol', 'autocorrelations are taken over a sub-range of the series: %s' % show(ser)[:60])
+    Dm = frozenset([('sym', 'DATA')])
+    env = Env(f, {1: frozenset([('sym', 'SELF')]), 2: Dm}, {})
+    content = Dm if nf[0] == data else eng.content(env, nf[0])
+    if content is None or isinstance(content, tuple) or has_top(content):
+        return ('undecided', 'content of the series passed to acf not read')
+    for e in content:
+        if e == ('sym', 'DATA'):
+            continue
+        if isinstance(e, tuple) and e[0] == 'b' and e[1] == 'Sub' and e[2] == ('sym', 'DATA') and e[3] != ('sym', 'DATA'):
+            continue
+        if isinstance(e, tuple) and e[0] == 'b' and e[1] == 'Add' and ('sym', 'DATA') in (e[2], e[3]) and e[2] != e[3]:
+            continue
+        return ('viol', 'autocorrelations are taken over %s, not over the (shifted) series' % show_expr(frozenset([e]))[:80])
+    # ---- slices and sizes
+    problems = []
+    undec = []
+
+    def expect(what, x, want, default):
+        v = default if x is None else lin(x)
+        if v is None:
+            undec.append('%s %s not read' % (what, show(x)[:40]))
+        elif v != want:
+            problems.append('%s is %s, expected %s' % (what, show(x)[:40] if x is not None else 'the default', _lin_show(want)))
+    expect('start of the right-hand side slice', B[1], (0, 1), (0, 0))
+    expect('end of the right-hand side slice', B[2], (1, 1), (1, 1))
+    expect('start of the Toeplitz slice', A[1], (0, 0), (0, 0))
+    expect('end of the Toeplitz slice', A[2], (1, 0), (1, 1))
+    expect('matmul row count', n1, (1, 0), None)
+    expect('matmul inner dimension', n2, (1, 0), None)
+    if nrev % 2 != 1:
+        problems.append('coefficients are reversed %d times in fit (history is oldest->newest, so an odd number of reversals is needed)' % nrev)
+    if problems:
+        return ('viol', '; '.join(problems))
+    if undec:
+        return ('undecided', '; '.join(undec))
+    return ('ok', 'coeffs = invert_matrix(toeplitz(r[..p])) . r[1..=p], r[t] = acf(series, t) for t in 0..=p, reversed %d time(s)' % nrev)
+
+
+def _lin_show(v):
+    a, b = v
+    if a == 0:
+        return str(b)
+    s = 'p' if a == 1 else '%d*p' % a
+    return s if b == 0 else '%s%+d' % (s, b)
 
 
 def _is_range_from(t, lo):
